@@ -18,25 +18,7 @@ def coq_oracle(entries):
     return coq_list(["mkO %d%%N %d%%Z %d%%Z %s" % (op, canon_bits(a), canon_bits(b), coq_float(b2f(r))) for op, a, b, r in entries])
 
 
-PRELUDE = """
-From MT Require Import Model.Scalar Model.F64 Model.Graph Model.Table.
-Definition mk_graph (es : list (N * N * bool * float)) (ext : list N) : graph float :=
-  mkGraph (map (fun q => mkEdge (fst (fst (fst q))) (snd (fst (fst q))) (snd q) (snd (fst q))) es) ext.
-Definition b2z (b : bool) : Z := if b then 1 else 0.
-Definition render_entry (e : entry float) : list Z :=
-  [Z.of_nat (t_loop e); b2z (t_span e); bits_of (t_j e); bits_of (t_dod e)].
-Definition render_build (tb : oracle) (es : list (N * N * bool * float)) (ext : list N) (D : nat) : list Z :=
-  let SC := F64 tb in
-  match build_sampler SC (ocall1 tb OP_GAMMA) (mk_graph es ext) D with
-  | BuildPanic w => [2; Z.of_nat w]
-  | BuildErr => [1]
-  | BuildOk t =>
-      [0; match get_num_variables t with Ok n => Z.of_nat n | Panic _ => -1 end;
-       bits_of (tg_dod (tb_graph t)); Z.of_nat (tg_loops (tb_graph t)); Z.of_nat (tg_nmassive (tb_graph t));
-       bits_of (tb_factor t); Z.of_nat (tb_dim t); Z.of_nat (length (tb_entries t))]
-      ++ flat_map render_entry (tb_entries t)
-  end.
-"""
+PRELUDE = "From MT Require Import Model.Scalar Model.F64 Model.Graph Model.Table Model.Render."
 
 
 def coq_edges(case):
